@@ -36,6 +36,15 @@ std::string ec_name(error_code const& ec)
 	return "ec:" + std::to_string(ec.value()) + ":" + ec.category().name();
 }
 
+std::FILE* g_out = stdout;
+void silence_library_stdout()
+{
+	std::fflush(stdout);
+	int fd = dup(1);
+	g_out = fdopen(fd, "w");
+	std::freopen("/dev/null", "w", stdout);
+}
+
 int for_each_behaviour(std::string const& path, std::size_t skip
 	, std::function<result(std::size_t, json::value const&)> const& fn)
 {
@@ -54,16 +63,16 @@ int for_each_behaviour(std::string const& path, std::size_t skip
 			std::fprintf(stderr, "bad json at line %zu: %s\n", idx, e.what());
 			return 2;
 		}
-		std::printf("{\"i\":%zu,\"begin\":true}\n", idx);
-		std::fflush(stdout);
+		std::fprintf(g_out, "{\"i\":%zu,\"begin\":true}\n", idx);
+		std::fflush(g_out);
 		result r = fn(idx, v);
 		json::object o = r.extra;
 		o["i"] = idx;
 		o["ok"] = r.ok;
 		if (!r.ok) { o["step"] = r.step; o["sig"] = r.sig; o["msg"] = r.msg; }
 		std::string s = json::serialize(o);
-		std::printf("%s\n", s.c_str());
-		std::fflush(stdout);
+		std::fprintf(g_out, "%s\n", s.c_str());
+		std::fflush(g_out);
 		++idx;
 	}
 	return 0;
